@@ -307,11 +307,7 @@ int fclose(FILE* f) {
       g_tracked_fds.erase(fd);
       W.event("fclose fd=%d", fd);
       W.counters["fclose"]++;
-    } else if (g_closed_files_contains(f)) {
-      W.violate("fd:double-close", "fclose called twice on the same stream");
-      return EOF;
     }
-    g_closed_files_add(f);
   }
   return real(f);
 }
@@ -824,8 +820,15 @@ static Stream* stream_by_name(sexp ctx, sexp name) {
 
 static ssize_t cookie_read(void* c, char* buf, size_t n) { return ((Stream*)c)->do_read(buf, n); }
 static ssize_t cookie_write(void* c, const char* buf, size_t n) {
-  ssize_t r = ((Stream*)c)->do_write(buf, n);
-  return r < 0 ? 0 : r;   // fopencookie: 0 signals an error
+  // stdio treats a short count from a cookie writer as an error, so accept everything, in tape-sized pieces
+  Stream* st = (Stream*)c;
+  size_t off = 0;
+  while (off < n) {
+    ssize_t r = st->do_write(buf + off, n - off);
+    if (r <= 0) return 0;   // fopencookie: 0 signals an error (EIO fault)
+    off += (size_t)r;
+  }
+  return (ssize_t)off;
 }
 static int cookie_close(void* c) { ((Stream*)c)->closed = true; return 0; }
 
@@ -1496,42 +1499,75 @@ static std::string read_all_fd(int fd, size_t cap) {
   return s;
 }
 
-static void serve_one(const std::string& line, int real_timeout_ms) {
+// The serving parent must not change its own memory image between plans (a later child would
+// otherwise start from a different malloc state and every address-dependent decision would differ):
+// it uses only static buffers and raw read/write; JSON is parsed in the child.
+static char g_planbuf[1 << 26];
+static size_t g_planlen = 0;
+static char g_relay[1 << 16];
+static char g_small[16384];
+
+static void raw_write_all(int fd, const char* p, size_t n) {
+  while (n) {
+    ssize_t k = write(fd, p, n);
+    if (k < 0) { if (errno == EINTR) continue; return; }
+    p += k; n -= (size_t)k;
+  }
+}
+
+static size_t json_escape_into(char* out, size_t cap, const char* in, size_t n) {
+  size_t o = 0;
+  for (size_t i = 0; i < n && o + 8 < cap; ++i) {
+    unsigned char c = (unsigned char)in[i];
+    if (c == '"' || c == '\\') { out[o++] = '\\'; out[o++] = (char)c; }
+    else if (c == '\n') { out[o++] = '\\'; out[o++] = 'n'; }
+    else if (c < 0x20 || c >= 0x7f) { o += (size_t)snprintf(out + o, cap - o, "\\u%04x", c); }
+    else out[o++] = (char)c;
+  }
+  return o;
+}
+
+static void child_main(int resfd, int errfd) {
+  close(0);
+  open("/dev/null", O_RDONLY);
+  dup2(errfd, 2);
+  g_resfd = resfd;
   js::Ptr plan;
   try {
-    plan = js::parse(line);
+    plan = js::parse(std::string(g_planbuf, g_planlen));
   } catch (std::exception& e) {
-    printf("{\"id\":-1,\"status\":\"bad-plan\",\"error\":\"%s\"}\n", e.what());
-    fflush(stdout);
-    return;
+    char msg[256];
+    int n = snprintf(msg, sizeof msg, "{\"id\":-1,\"status\":\"bad-plan\",\"error\":\"%s\"}\n", e.what());
+    raw_write_all(resfd, msg, (size_t)n);
+    _exit(0);
   }
-  int64_t id = plan->geti("id", 0);
+  run_plan(*plan);
+  _exit(0);
+}
+
+static void serve_one(int real_timeout_ms) {
   int pfd[2];
   if (pipe(pfd) != 0) { perror("pipe"); exit(3); }
   int errfd = memfd_create("chibisim-stderr", 0);
-  fflush(stdout);
   pid_t pid = fork();
   if (pid < 0) { perror("fork"); exit(3); }
   if (pid == 0) {
     close(pfd[0]);
-    close(0);
-    open("/dev/null", O_RDONLY);
-    dup2(errfd, 2);
-    g_resfd = pfd[1];
-    run_plan(*plan);
-    _exit(0);
+    child_main(pfd[1], errfd);
   }
   close(pfd[1]);
-  std::string result;
-  char buf[65536];
+  // the child's result line is relayed only if it ends normally; it is held in a private
+  // mapping that is unmapped again afterwards (no effect on the malloc state)
+  size_t cap = 1 << 26, len = 0;
+  char* hold = (char*)mmap(nullptr, cap, PROT_READ | PROT_WRITE, MAP_PRIVATE | MAP_ANONYMOUS, -1, 0);
   int waited = 0;
   bool timed_out = false;
   for (;;) {
     struct pollfd p = {pfd[0], POLLIN, 0};
     int r = poll(&p, 1, 100);
     if (r > 0) {
-      ssize_t k = read(pfd[0], buf, sizeof buf);
-      if (k > 0) { result.append(buf, k); continue; }
+      ssize_t k = read(pfd[0], g_relay, sizeof g_relay);
+      if (k > 0) { if (len + (size_t)k <= cap) { memcpy(hold + len, g_relay, (size_t)k); len += (size_t)k; } continue; }
       if (k == 0) break;
       if (errno == EINTR) continue;
       break;
@@ -1545,28 +1581,46 @@ static void serve_one(const std::string& line, int real_timeout_ms) {
   close(pfd[0]);
   int status = 0;
   while (waitpid(pid, &status, 0) < 0 && errno == EINTR) {}
-  bool have_line = !result.empty() && result.back() == '\n';
+  bool have_line = len > 0 && hold[len - 1] == '\n';
   if (have_line && !timed_out && WIFEXITED(status) && WEXITSTATUS(status) == 0) {
-    fwrite(result.data(), 1, result.size(), stdout);
+    raw_write_all(1, hold, len);
   } else {
-    js::Writer w;
-    w.begin_obj();
-    w.kv("id", id);
-    std::string st;
+    const char* st = "unknown";
+    char stbuf[64];
     if (timed_out) st = "timeout";
-    else if (WIFSIGNALED(status)) st = std::string("crash:") + strsignal(WTERMSIG(status));
+    else if (WIFSIGNALED(status)) { snprintf(stbuf, sizeof stbuf, "crash:%s", strsignal(WTERMSIG(status))); st = stbuf; }
     else if (WIFEXITED(status) && WEXITSTATUS(status) == 77) st = "asan";
-    else if (WIFEXITED(status)) st = "exit:" + std::to_string(WEXITSTATUS(status));
-    else st = "unknown";
-    w.kv("status", st);
-    w.kv("stderr", read_all_fd(errfd, 6000));
-    w.kv("partial", result.substr(0, 2000));
-    w.end_obj();
-    w.out += '\n';
-    fwrite(w.out.data(), 1, w.out.size(), stdout);
+    else if (WIFEXITED(status)) { snprintf(stbuf, sizeof stbuf, "exit:%d", WEXITSTATUS(status)); st = stbuf; }
+    // stderr tail
+    off_t sz = lseek(errfd, 0, SEEK_END);
+    off_t from = sz > 6000 ? sz - 6000 : 0;
+    lseek(errfd, from, SEEK_SET);
+    static char errraw[6001];
+    ssize_t got = read(errfd, errraw, 6000);
+    if (got < 0) got = 0;
+    size_t o = (size_t)snprintf(g_small, sizeof g_small, "{\"id\":0,\"status\":\"%s\",\"stderr\":\"", st);
+    static char esc[8 * 6001];
+    size_t e = json_escape_into(esc, sizeof esc, errraw, (size_t)got);
+    raw_write_all(1, g_small, o);
+    raw_write_all(1, esc, e);
+    raw_write_all(1, "\"}\n", 3);
   }
+  munmap(hold, cap);
   close(errfd);
-  fflush(stdout);
+}
+
+// reads one line (a plan) from fd 0 into the static plan buffer; returns false on EOF
+static bool read_plan_line() {
+  // the driver sends one plan and waits for its result, so nothing follows the newline
+  g_planlen = 0;
+  for (;;) {
+    if (g_planlen >= sizeof g_planbuf) return false;
+    ssize_t k = read(0, g_planbuf + g_planlen, sizeof g_planbuf - g_planlen);
+    if (k == 0) return false;
+    if (k < 0) { if (errno == EINTR) continue; return false; }
+    g_planlen += (size_t)k;
+    if (g_planbuf[g_planlen - 1] == '\n') { g_planlen--; return true; }
+  }
 }
 
 static void aslr_off_reexec(int argc, char** argv) {
@@ -1618,27 +1672,20 @@ int main(int argc, char** argv) {
   }
   W.poison = true;
   if (!one_plan.empty()) {
-    FILE* f = fopen(one_plan.c_str(), "r");
-    if (!f) { perror("plan"); return 3; }
-    std::string line;
-    char buf[65536];
-    size_t k;
-    while ((k = fread(buf, 1, sizeof buf, f)) > 0) line.append(buf, k);
-    fclose(f);
-    serve_one(line, timeout_ms);
+    int pf = open(one_plan.c_str(), O_RDONLY);
+    if (pf < 0) { perror("plan"); return 3; }
+    g_planlen = 0;
+    ssize_t k;
+    while ((k = read(pf, g_planbuf + g_planlen, sizeof g_planbuf - g_planlen)) > 0) g_planlen += (size_t)k;
+    close(pf);
+    serve_one(timeout_ms);
     return 0;
   }
   if (serve) {
-    printf("{\"ready\":true}\n");
-    fflush(stdout);
-    std::string line;
-    char* lb = nullptr;
-    size_t cap = 0;
-    ssize_t n;
-    while ((n = getline(&lb, &cap, stdin)) > 0) {
-      line.assign(lb, n);
-      if (line == "quit\n") break;
-      serve_one(line, timeout_ms);
+    raw_write_all(1, "{\"ready\":true}\n", 15);
+    while (read_plan_line()) {
+      if (g_planlen == 4 && !memcmp(g_planbuf, "quit", 4)) break;
+      serve_one(timeout_ms);
     }
   }
   return 0;
